@@ -16,15 +16,20 @@
    start, stop and one delivery are atomic with respect to each other.  They
    are therefore single functions here.
 
-   Two switches select the variant of the code that is modelled:
+   Three switches select the variant of the code that is modelled:
    [fx] - [true] = the code as it is since /repo commit 6ba1164
           (notes/C13_fix_oneshot_flag.diff: UV_SIGNAL_ONE_SHOT is set or cleared by
           every effective start), [false] = before that commit (the flag is only
           ever set);
-   [fs] - [false] = the code as it is (uv__signal_event stops a ONE_SHOT handle
-          after every message, also one whose signum is not the watched one),
-          [true] = with notes/C13_fix_oneshot_stale_stop.diff (the one-shot stop
-          only after the callback).
+   [fs] - [true] = the code as it is since /repo commit c39ecc3
+          (notes/C13_fix_oneshot_stale_stop.diff: the one-shot stop only after the
+          callback), [false] = before that commit (uv__signal_event stopped a
+          ONE_SHOT handle after every message, also one whose signum was not the
+          watched one);
+   [fr] - [false] = the code as it is (after the callback a ONE_SHOT handle is
+          stopped whatever it watches by then), [true] = with
+          notes/C13_fix_oneshot_restart_in_cb.diff (stopped only if it still watches
+          the signal of the message).
 
    Ghost fields (never printed, never read by the modelled code): [g_fired]
    (the handler has run for this handle since it was last inserted into the
@@ -291,23 +296,30 @@ Definition msg_finish (s : state) (h : nat) (r : list msg) : state :=
   let s2 := upd_h (with_batch s r) h h_inc_dispatched in
   if h_oneshot (get s2 h) then sig_stop s2 h else s2.
 
+(* after the callback of a message (h, sig) *)
+Definition msg_after_cb (fr : bool) (s : state) (h sig : nat) (r : list msg) : state :=
+  if fr then
+    let s2 := upd_h (with_batch s r) h h_inc_dispatched in
+    if h_oneshot (get s2 h) && (h_signum (get s2 h) =? sig) then sig_stop s2 h else s2
+  else msg_finish s h r.
+
 (* a message whose signum is not the one being watched: no callback *)
 Definition msg_skip (fs : bool) (s : state) (h : nat) (r : list msg) : state :=
   if fs then upd_h (with_batch s r) h h_inc_dispatched      (* repaired: only dispatched_signals++ *)
   else msg_finish s h r.                                    (* as it is: also the one-shot stop *)
 
-Definition process_msg (fx fs : bool) (beh : nat -> list op) (s : state) (m : msg) (r : list msg) : state :=
+Definition process_msg (fx fs fr : bool) (beh : nat -> list op) (s : state) (m : msg) (r : list msg) : state :=
   let h := fst m in
   let sig := snd m in
   if sig =? h_signum (get s h) then
     let s1 := script fx (cb_enter s h sig) (beh (cbcount s)) in
-    msg_finish (log s1 (ECbEnd h)) h r
+    msg_after_cb fr (log s1 (ECbEnd h)) h sig r
   else msg_skip fs s h r.
 
-Fixpoint process_msgs (fx fs : bool) (beh : nat -> list op) (s : state) (b : list msg) : state :=
+Fixpoint process_msgs (fx fs fr : bool) (beh : nat -> list op) (s : state) (b : list msg) : state :=
   match b with
   | [] => s
-  | m :: r => process_msgs fx fs beh (process_msg fx fs beh s m r) r
+  | m :: r => process_msgs fx fs fr beh (process_msg fx fs fr beh s m r) r
   end.
 
 Definition batch_size : nat := 32.
@@ -318,7 +330,7 @@ Definition take_batch (s : state) (l : nat) : state :=
 
 (* uv__signal_event: read up to 32 messages, handle them, go on only while a
    full buffer was read *)
-Fixpoint signal_event (fx fs : bool) (beh : nat -> list op) (fuel : nat) (s : state) (l : nat) : state :=
+Fixpoint signal_event (fx fs fr : bool) (beh : nat -> list op) (fuel : nat) (s : state) (l : nat) : state :=
   match fuel with
   | O => s
   | S f =>
@@ -326,8 +338,8 @@ Fixpoint signal_event (fx fs : bool) (beh : nat -> list op) (fuel : nat) (s : st
       | [] => s                                                  (* EAGAIN with an empty buffer *)
       | _ :: _ =>
           let s1 := take_batch s l in
-          let s2 := process_msgs fx fs beh s1 (batch s1) in
-          if length (batch s1) =? batch_size then signal_event fx fs beh f s2 l else s2
+          let s2 := process_msgs fx fs fr beh s1 (batch s1) in
+          if length (batch s1) =? batch_size then signal_event fx fs fr beh f s2 l else s2
       end
   end.
 
@@ -348,22 +360,22 @@ Definition run_closing (s : state) (l : nat) : state :=
 
 (* one uv_run(UV_RUN_NOWAIT) of a loop that is kept alive: poll phase (signal
    pipe), then closing handles *)
-Definition dispatch (fx fs : bool) (beh : nat -> list op) (fuel : nat) (s : state) (l : nat) : state :=
+Definition dispatch (fx fs fr : bool) (beh : nat -> list op) (fuel : nat) (s : state) (l : nat) : state :=
   let s0 := log s (ERunBegin l) in
-  let s1 := signal_event fx fs beh fuel s0 l in
+  let s1 := signal_event fx fs fr beh fuel s0 l in
   let s2 := run_closing s1 l in
   snap (log s2 (ERunEnd l)).
 
-Definition top (fx fs : bool) (beh : nat -> list op) (fuel : nat) (s : state) (o : op) : state :=
+Definition top (fx fs fr : bool) (beh : nat -> list op) (fuel : nat) (s : state) (o : op) : state :=
   match o with
-  | ORun l => dispatch fx fs beh fuel s l
+  | ORun l => dispatch fx fs fr beh fuel s l
   | _ => api_snap fx s o
   end.
 
-Fixpoint run (fx fs : bool) (beh : nat -> list op) (fuel : nat) (s : state) (os : list op) : state :=
+Fixpoint run (fx fs fr : bool) (beh : nat -> list op) (fuel : nat) (s : state) (os : list op) : state :=
   match os with
   | [] => s
-  | o :: r => run fx fs beh fuel (top fx fs beh fuel s o) r
+  | o :: r => run fx fs fr beh fuel (top fx fs fr beh fuel s o) r
   end.
 
 Definition trace_of (s : state) : list event := rev (tr s).
